@@ -12,6 +12,11 @@ import StirVerif.C07.Model
     uimg <k> <subset> G <gps…> S <sens…> [P <priorgrad…>]             -> the image written by `write update image` (`updateImage`)
     init 0|1 <nvox>   |   init file <nvox> V <image in the file…>     -> `get_initial_data_ptr()` (`initialData`)
     bal <views> <d90> <d180> <swap_segment> <tof> <phi offset> <min_view> <max_view> <max_segment> <numSubsets>   -> ok | err (`setUpAcceptsSubsets`)
+    mat <nvox> <nbins> R <seg> <basic view> <ax> <minAx> <maxAx> <nelem> <j> <P_bj> … R …   -> ok   (explicit system matrix of the geometry)
+    dat <nbins> Y <counts…> A <additive term…> N <normalisation factors…>                  -> ok   (data of the bins of the last `mat`)
+    emx <k> <subset> <maxSeg> <zeroSeg0EndPlanes 0|1> <useSubsetSens 0|1> <n float ops> J <voxel indices…> L <image…>
+                                                                      -> voxels J of the image after `update_estimate` (`emExplicit`:
+                                                                         numerator and sensitivity from the explicit system of `mat`/`dat`)
     Floats are C99 hex floats, parsed exactly; answers are exact rationals `p/q` (or inf, -inf, nan); a voxel whose
     division is within 2^-20 (relative) of the threshold of `stir::divide` is answered as `a|b` (both branches), a voxel
     whose quotient is non-zero / 0 as `*` (anything goes: outside the property, and -ffast-math territory). -/
@@ -67,7 +72,8 @@ def fmtImg (l : List Rat) : String := " ".intercalate (l.map fmtRat)
 
 /-- split the tokens after the op header into tagged sections -/
 def sections (toks : List String) : List (String × List String) :=
-  let isTag (t : String) := t == "L" || t == "G" || t == "S" || t == "P" || t == "F" || t == "V"
+  let isTag (t : String) := t == "L" || t == "G" || t == "S" || t == "P" || t == "F" || t == "V" ||
+    t == "Y" || t == "A" || t == "N" || t == "J"
   let rec go (toks : List String) (cur : Option (String × List String)) (acc : List (String × List String)) :=
     match toks with
     | [] => (match cur with | some (t, l) => (t, l.reverse) :: acc | none => acc).reverse
@@ -94,6 +100,38 @@ structure St where
   iuf : Nat := 0
   iif : Nat := 0
   enforce : Bool := true
+  geo : List Row := []      -- rows of the last `mat` (no data)
+  sys : List Row := []      -- … with the data of the last `dat`
+
+/-- rows of a `mat` line: `R seg basicView ax minAx maxAx nelem (j P)*` repeated -/
+def parseRows (toks : List String) : Option (List Row) :=
+  let rec elems (n : Nat) (toks : List String) (acc : List (Nat × Rat)) : Option (List (Nat × Rat) × List String) :=
+    match n, toks with
+    | 0, r => some (acc.reverse, r)
+    | n + 1, j :: p :: r =>
+      match j.toNat?, parseHex p with
+      | some j', some p' => elems n r ((j', p') :: acc)
+      | _, _ => none
+    | _, _ => none
+  let rec go (fuel : Nat) (toks : List String) (acc : List Row) : Option (List Row) :=
+    match fuel, toks with
+    | _, [] => some acc.reverse
+    | 0, _ => none
+    | fuel + 1, "R" :: seg :: bv :: ax :: mn :: mx :: ne :: r =>
+      match seg.toInt?, bv.toInt?, ax.toInt?, mn.toInt?, mx.toInt?, ne.toNat? with
+      | some seg', some bv', some ax', some mn', some mx', some ne' =>
+        match elems ne' r [] with
+        | some (es, rest) =>
+          go fuel rest ({ seg := seg', basicView := bv', ax := ax', minAx := mn', maxAx := mx', y := 0, a := 0, eff := 1, elems := es } :: acc)
+        | none => none
+      | _, _, _, _, _, _ => none
+    | _, _ => none
+  go toks.length toks []
+
+def zip4 (rows : List Row) (y a n : List Rat) : List Row :=
+  match rows, y, a, n with
+  | r :: rs, y :: ys, a :: as, n :: ns => { r with y := y, a := a, eff := 1 / n } :: zip4 rs ys as ns
+  | _, _, _, _ => []
 
 def St.cfg (s : St) (g sens pg : Img) (fu fi : Option Img) : Cfg :=
   { numSubsets := s.numSubsets, startSubset := s.startSubset, map := s.map, minRel := s.minRel, maxRel := s.maxRel,
@@ -156,9 +194,10 @@ def stepLine (st : St) (line : String) : St × String :=
   | ["cfg", _, nv, ns, ss, m, mn, mx, iu, ii, en] =>
     match parseHex mn, parseHex mx with
     | some mn', some mx' =>
-      ({ nvox := N nv, numSubsets := N ns, startSubset := N ss,
-         map := if m == "1" then .additive else if m == "2" then .multiplicative else .none,
-         minRel := mn', maxRel := mx', iuf := N iu, iif := N ii, enforce := en == "1" }, "ok")
+      ({ st with
+          nvox := N nv, numSubsets := N ns, startSubset := N ss,
+          map := if m == "1" then .additive else if m == "2" then .multiplicative else .none,
+          minRel := mn', maxRel := mx', iuf := N iu, iif := N ii, enforce := en == "1" }, "ok")
     | _, _ => (st, "bad-cfg")
   | ["chk", ns, ss, n, start, save, ii, iu] =>
     let I (s : String) : Int := s.toInt?.getD 0
@@ -228,6 +267,35 @@ def stepLine (st : St) (line : String) : St × String :=
         else if (st.map != .none) != hasP then (st, "prior-data-mismatch")
         else (st, answerUimg (st.cfg g s pg none none) k' g s pg)
       | none => (st, "bad-float")
+    | _, _ => (st, "bad-float")
+  | "mat" :: nv :: nb :: rest =>
+    match parseRows rest with
+    | some rows =>
+      if rows.length ≠ N nb ∨ rows.any (fun r => r.elems.any fun e => e.1 ≥ N nv) then (st, "bad-size")
+      else ({ st with geo := rows, sys := [] }, "ok")
+    | none => (st, "bad-mat")
+  | "dat" :: nb :: rest =>
+    let secs := sections rest
+    match getVec secs "Y", getVec secs "A", getVec secs "N" with
+    | some y, some a, some n =>
+      if y.length ≠ N nb ∨ a.length ≠ N nb ∨ n.length ≠ N nb ∨ st.geo.length ≠ N nb ∨ n.any (· == 0) then (st, "bad-size")
+      else ({ st with sys := zip4 st.geo y a n }, "ok")
+    | _, _, _ => (st, "bad-float")
+  | "emx" :: k :: subset :: maxSeg :: zeroEnd :: useSub :: _nops :: rest =>
+    let secs := sections rest
+    let k' := N k
+    match secs.find? (·.1 == "J"), getVec secs "L" with
+    | some (_, js), some img =>
+      if img.length ≠ st.nvox ∨ st.sys.isEmpty then (st, "bad-size")
+      else if subsetNum k' st.startSubset st.numSubsets ≠ N subset then (st, "bad-subset")
+      else if st.map != .none ∨ (st.iuf > 0 ∧ k' % st.iuf = 0) then (st, "bad-op")
+      else
+        let ms : Int := maxSeg.toInt?.getD 0
+        let z := zeroEnd == "1"
+        if !regularStep z ms st.numSubsets (N subset) st.sys img then (st, "irregular")
+        else
+          let c := st.cfg [] [] [] none none
+          (st, " ".intercalate ((emExplicit c z (useSub == "1") ms st.sys k' img (js.map N)).map fmtExt))
     | _, _ => (st, "bad-float")
   | ["bal", v, d90, d180, sw, tof, phi, minv, maxv, maxseg, ns] =>
     let I (s : String) : Int := s.toInt?.getD 0
